@@ -55,6 +55,8 @@ DEVIATIONS: t.Dict[str, t.List[t.Any]] = {
     "now": [(0, 0), (31, 31), (0, 31), (3, 31)], "nsub": [1, 15], "namelen": [0, 1, 8], "named": [False], "sec": ["ntlm"], "sig": [28, 76],
     "dc.l2_at_31": [False], "dc.cover": ["later", "l1end"], "dc.reply_alloc_hint": ["unpadded", "zero", "16", "max"], "dc.reply_pad_extra": [1], "dc.reply_pad_fill": [0xE7],
     "dc.reply_reserved": [0xFF], "dc.header_sign": [False], "dc.isd_port": [1, 65535], "dc.server_legs": [2],
+    "dc.env_flags": ["alt"],  # the other spelling of the envelope flags: 0 instead of 2 (seed keys), 3 instead of 1 (public key)
+    "dc.name_style": ["unicode"],  # domain / forest names with non-ASCII and non-BMP characters
 }
 
 
@@ -80,6 +82,10 @@ def run_cfg(seed: int, c: Cfg):
     d = seams.Drbg(("C17blob", seed, c.pos, c.nsub, c.namelen))
     now = (L0, c.now[0], c.now[1])
     shape = dict(c.dc)
+    if shape.pop("name_style", None) == "unicode":
+        dom = ("d\u00f6m\U0001d521in.t\u00ebst" * 2)[: c.namelen]
+    if shape.pop("env_flags", None) == "alt":
+        shape["envelope_override"] = lambda e: e._replace(flags={2: 0, 1: 3}.get(e.flags, e.flags))
     dc = refdc.DC([rk], now=now if c.op == "protect" else (L0, 31, 31), authorised=c.kind == "seed", domain=dom, forest=dom, sec=c.sec, sig_size=c.sig,
                   cover=shape.pop("cover", "exact"), header_sign=shape.pop("header_sign", True), isd_port=shape.pop("isd_port", refdc.ISD_PORT))
     legs = shape.get("server_legs", 1)
